@@ -26,6 +26,7 @@ Decides:
  S withheld        once adjacent_scope has found a window it answers None ONLY when the window equals the current scope (an empty window is a
                    proposal: `drink eat Fastfood`); State::get / ArgsIter yield only in-scope present items (the probe on a one-item window
                    cannot see the value slot outside it; shared with C05).
+ L by one          ArgRangesIter::next moves its cursor by exactly one per step (every position is a candidate start).
 Does not decide: which vectors are accepted for a given shape (index arithmetic over run-time ledgers)."""
 import re
 from core import *
